@@ -24,10 +24,26 @@ UNIMPLEMENTED_TOSTRING = [(0, 2, 0), (0, 3, 0), (0, 3, 1), (0, 4, 0), (0, 6, 0),
 B6 = '0x81ful'    # a->r0, a->r1, b->r0, b->r1, g(r0,r0)->r0, g(r1,r1)->r1
 B8 = '0xc3ful'    # B6 + g(r0,r1)->r0, g(r1,r0)->r1
 
+# B over 2 states, {a/0,b/0,g/2}: a->r0, b->r0, a->r1, g(r0,r0)->r0, g(r0,r1)->r0, g(r1,r0)->r0 (one child position simulates, the other does not)
+B6X = '0x77ul'
+# A over 2 states: a->p0, b->p0, g(p0,p0)->p0, g(p0,p0)->p1, only p1 may be final;  B over 3 states: a->r0, a->r1, b->r0, b->r1,
+# g(r0,r0)->r2, g(r0,r1)->r2, g(r1,r0)->r2, g(r1,r1)->r2, only r2 may be final: the children of A are covered only jointly by
+# several rules of B (choice functions over the rules of B matter)
+A4J = '0x115ul'
+B8J = '0x%xul' % sum(1 << i for i in (0, 1, 3, 4, 24, 25, 27, 28))
+JOINT = {'AFREE': A4J, 'AFIN': '0x2u', 'BFREE': B8J, 'BFIN': '0x4u'}
+
 def c07_configs(tier):
     out = []
     for (enc, sel, src) in IMPLEMENTED:
         k = {'ENC': enc, 'SEL': sel, 'SIMSRC': src}
+        direct = not (sel & 1) or (enc, sel) == (0, 5)               # selections that sanitise copies themselves: called on the automata as loaded
+        if direct: out.append(pair(2, 1, [0, 1], PRESAN=1, **k))     # ... and once the way the CLI does it (sanitised by the caller first)
+        slow = (enc, sel, src) == (0, 5, 0)                          # also computes the simulation in the harness (which this selection ignores): minutes
+        if tier == 'thorough' or not slow:
+            out.append(pair(1, 2, [0, 0, 2], BFREE=B6X, **k))        # 12 bits
+            if (enc, sel) != (0, 0) and (enc, sel) != (0, 1):        # (bottom-up upward: known finding C07-1 for rank 2 in A)
+                out.append(pair(2, 3, [0, 0, 2], **dict(JOINT, _time=1500, **k)))    # 14 bits
         out.append(pair(1, 1, [0, 0, 1], **k))                       # 8 bits
         out.append(pair(1, 1, [0, 0, 2], **k))                       # 8 bits
         out.append(pair(2, 1, [0, 1], **k))                          # 11 bits
